@@ -59,7 +59,9 @@ def _case(draw):
                 c=draw(st.lists(st.sampled_from([1.0, -2.0, 0.5]), min_size=n, max_size=n)),
                 tol=draw(st.sampled_from({"float32": [1e-4, 1e-5], "float64": [1e-6, 1e-9, 1e-12], "longdouble": [1e-9, 1e-12, 1e-15]}[dtype])),
                 with_jac=draw(st.booleans()), jac_layout=draw(st.sampled_from(["matrix", "tensor"])),
-                flat_out=draw(st.sampled_from([False, False, True])))
+                flat_out=draw(st.sampled_from([False, False, True])),
+                # memory layout of the initial guess (same values and shape): C order, Fortran order, a transposed view
+                layout=draw(st.sampled_from(["C", "C", "F", "T"])))
 
 
 def parts(tier):
@@ -165,10 +167,14 @@ def check(case):
         if case["fam"] == "expm1":
             off = np.abs(off)        # (exp overflows on one side only)
         x0 = (np.asarray(case["xstar"], dtype=dt) + off).reshape(shape)
+    if case.get("layout") == "F" and x0.ndim >= 2:
+        x0 = np.asfortranarray(x0)
+    elif case.get("layout") == "T" and x0.ndim >= 2:
+        x0 = np.ascontiguousarray(x0.T).T
     tol = case["tol"]
     solver = case["solver"]
     labels = ["solver:" + solver, "dtype:" + case["dtype"], "fam:" + case["fam"], "jac:" + ("user" if case["with_jac"] else "fd"),
-              "shape:{}d".format(len(shape))]
+              "shape:{}d".format(len(shape))] + (["guess_not_c_ordered"] if (len(shape) >= 2 and case.get("layout") in ("F", "T")) else [])
     jac = None
     if case["with_jac"] or solver == "hybrj":
         if case["jac_layout"] == "matrix" or not shape:
@@ -186,13 +192,13 @@ def check(case):
         with warnings.catch_warnings():
             warnings.simplefilter("ignore")
             if solver == "nonlinear_roots":
-                x, info = opt.nonlinear_roots(S.F, x0.copy(), jac=jac, tol=tol)
+                x, info = opt.nonlinear_roots(S.F, x0.copy(order="K"), jac=jac, tol=tol)
                 success = bool(info[0])
             elif solver == "hybrj":
-                x, info = opt.hybrj(S.F, x0.copy(), jac, tol=tol)
+                x, info = opt.hybrj(S.F, x0.copy(order="K"), jac, tol=tol)
                 success = bool(info[0])
             else:
-                x, info = opt.newtontrustregion(S.F, x0.copy(), jac=jac, tol=tol)
+                x, info = opt.newtontrustregion(S.F, x0.copy(order="K"), jac=jac, tol=tol)
                 success = bool(info[0])
     except (ValueError, np.linalg.LinAlgError, ZeroDivisionError) as e:
         if exc_origin(e)[0] == "harness":
